@@ -3,7 +3,7 @@
 The peer sends m frames (symbolic payloads) followed by an incomplete frame, and closes after a symbolic number e of bytes
 (so the close can fall anywhere: inside a frame, between frames, inside the separator).  The application calls recv_packet
 H times.  Real code: StreamEndpoint (over FakeSocket + SocketStreamTransport, kernel read sizes symbolic), AsyncStreamEndpoint
-(over an in-memory async transport, coroutines stepped directly), TCPNetworkClient (recv_packet and iter_received_packets).
+(over an in-memory async transport, coroutines stepped directly), TCPNetworkClient (recv_packet and iter_received_packets),\nAsyncTCPNetworkClient.recv_packet (connect on first use, on the deterministic loop).
 Asserted: the packets returned are exactly the frames fully contained in the first e bytes, in order, each once; when the first
 end-of-stream (ConnectionAbortedError) is reported all of them have been delivered; every later call reports end-of-stream
 again (never data, never another error, never a hang); the incomplete tail is never delivered.
@@ -32,7 +32,7 @@ OUTSIDE = "real sockets, TLS transports, AsyncTCPNetworkClient wiring (its endpo
 
 
 def endpoint(lens: list, tail: int, seplen: int, path: str, mode: str, bufsize: int = 2):
-    """mode: sync | async | client | client-iter"""
+    """mode: sync | async | client | client-iter | aclient"""
 
     def scenario(S):
         sep = L.SEPS[seplen]
@@ -66,7 +66,44 @@ def endpoint(lens: list, tail: int, seplen: int, path: str, mode: str, bufsize: 
         sock = None
         saved = tcp_mod.SocketStreamTransport
         try:
-            if mode == "async":
+            loop_cm = None
+            if mode == "aclient":
+                # the real AsyncTCPNetworkClient (connects on first use) on the deterministic loop
+                from easynetwork.clients.async_tcp import AsyncTCPNetworkClient
+
+                from .asyncenv import loop_context
+                from .c12 import MemBackend
+
+                loop_cm = loop_context()
+                loop = loop_cm.__enter__()
+
+                def decide(m):
+                    a = S.int(1, max(N, 1), "rd")
+                    S.assume(a <= m)
+                    return a
+
+                holder = {}
+
+                def factory():
+                    holder["tr"] = MemStreamTransport(be, sent, eof=True, decide=decide, eof_once=True, loop=loop)
+                    return holder["tr"]
+
+                be = MemBackend(factory)
+                aclient = AsyncTCPNetworkClient(("host", 1), proto, be, max_recv_size=bufsize)
+
+                def call():
+                    t = loop.create_task(aclient.recv_packet())
+                    for _ in range(30):
+                        loop.step()
+                        if t.done():
+                            break
+                    if not t.done():
+                        t.cancel()
+                        loop.run_until_idle(10)
+                        raise RuntimeError("would block: recv_packet() did not finish")
+                    return t.result()
+
+            elif mode == "async":
                 def decide(m):
                     a = S.int(1, max(N, 1), "rd")
                     S.assume(a <= m)
@@ -116,6 +153,8 @@ def endpoint(lens: list, tail: int, seplen: int, path: str, mode: str, bufsize: 
             tcp_mod.SocketStreamTransport = saved
             if sock is not None:
                 sock.really_close()
+            if loop_cm is not None:
+                loop_cm.__exit__(None, None, None)
         ok = True
         seen_eof = False
         npk = 0
@@ -155,7 +194,7 @@ def shards(tier: str):
         nm = "+".join(map(str, lens)) + f"t{tail}"
         for seplen in (1, 2):
             for path in ("copy", "buf"):
-                for mode in ("sync", "async", "client", "client-iter"):
+                for mode in ("sync", "async", "client", "client-iter", "aclient"):
                     for bufsize in (1, 2, 16) if not quick else ((1, 16) if mode in ("sync", "async") else (2,)):
                         if quick and mode.startswith("client") and (seplen == 2 and path == "buf"):
                             continue
